@@ -173,7 +173,7 @@ def scenario(ctx, R, rng, content, B, tmo_opt, silence_after, ending, tick_gap):
 def run(ctx, build):
     R = ctx.try_runner('Tftp')
     rng = ctx.rng
-    n = 2500 if ctx.thorough else 50
+    n = 6000 if ctx.thorough else 50
     if ctx.widen:
         n *= 2
     poll = 10_000_000
